@@ -1,5 +1,6 @@
 import HapModel.Model.Clump
 import HapModel.Model.Overlap
+import HapModel.Model.LdStat
 /-!
 # C17 — clump output is exactly greedy LD clumping and always terminates
 
@@ -72,5 +73,23 @@ theorem overlapping_samples_exact (a b : List Overlap.E) (ha : Overlap.Sorted a)
 /-- non-vacuity: names ranked 1,4,7 in rows 2,0,1 of the SNP file; 4,5,7 in rows 0,1,2 of the STR file -/
 example : Overlap.walk [(1, 2), (4, 0), (7, 1)] [(4, 0), (5, 1), (7, 2)] = [(0, 0), (1, 2)] := by
   simp [Overlap.walk]
+
+/-- **Pearson r² over dosages**: `ComputeLD` uses exactly the samples in which neither variant has a missing allele, and the
+    dosage of a sample is the sum of its two allele indices (the definition, spelled out) -/
+theorem ld_over_samples_without_missing_calls (cand index : List (Nat × Nat)) :
+    LdStat.validDosages cand index =
+      ((cand.zip index).filter (fun p => (decide (p.1.1 < 254) && decide (p.1.2 < 254)) &&
+          (decide (p.2.1 < 254) && decide (p.2.2 < 254)))).map
+        (fun p => (((p.1.1 + p.1.2 : Nat) : Int), ((p.2.1 + p.2.2 : Nat) : Int))) := rfl
+
+/-- r²(candidate, index) = r²(index, candidate): which of two variants is the index does not matter for the decision -/
+theorem ld_symmetric (cand index : List (Nat × Nat)) : LdStat.clumpLd index cand = LdStat.clumpLd cand index :=
+  LdStat.clumpLd_symm cand index
+
+/-- non-vacuity: copy numbers above 127 (dosages above 255) and a missing call, three samples left; and a small SNP pair -/
+example : LdStat.clumpLd [(130, 140), (120, 125), (255, 3), (128, 128)] [(1, 1), (0, 0), (1, 0), (0, 1)] = .r2 5625 5652 ∧
+    LdStat.clumpLd [(1, 0), (0, 0), (1, 1)] [(1, 1), (0, 0), (1, 0)] = .r2 9 36 ∧
+    LdStat.clumpLd [(1, 0), (254, 0)] [(1, 1), (0, 0)] = .undefined ∧ LdStat.clumpLd [(255, 255)] [(1, 1)] = .empty := by
+  decide +kernel
 
 end C17
